@@ -165,6 +165,19 @@ def raw_state(lib, size):
     return np.frombuffer(buf, dtype=np.float64, count=size).copy()
 
 
+def _poke(script):
+    """What a caller may do to ITS script object once the engine has been set up with it: edit the state and the requested
+    times in place, then put another (one-cell) system into it. The engine works on its own copy of the script."""
+    import copy as _copy
+    st = script.system.state
+    if len(st.value):
+        st.value[0] = st.value[0] + 3.0
+    if len(script.t_sample.value):
+        script.t_sample.value[-1] = script.t_sample.value[-1] * 2.0 + 1.0
+    small = rdsystem_from_dict({"network": {"species": [{"label": "Z", "density": 1}], "reactions": []}})
+    script.system = small
+
+
 def _script_projection(script):
     """everything a script says (system included: species, reactions, space, state, chemostat map; times; policy; seed;
     processing mode; units system) - a run must leave the caller's script as it found it"""
@@ -408,6 +421,9 @@ class Runner:
             d["t"] = abs_step(raw_time(lib), rf.T) if rf else UNKNOWN
             return d
 
+        nsetups = [0]
+        setup_key = {}
+
         def perform(cl, given_script=None):
             """one lifecycle call on the real engine, logged after it returned; returns (python result, exception)"""
             nonlocal glob
@@ -421,8 +437,17 @@ class Runner:
                     c = h["cfgs"][cid]
                     skey, script = self.script(c)
                     us_before = _script_projection(script)
-                    result = eng.setup(script if given_script is None else given_script)
+                    nsetups[0] += 1
+                    poke = given_script is None and (nsetups[0] + len(h["calls"])) % 2 == 0
+                    handed = script if given_script is None else given_script
+                    if poke:
+                        import copy as _copy
+                        handed = _copy.deepcopy(script)          # an equal script of the caller's own, edited once it is handed over
+                    result = eng.setup(handed)
+                    if poke:
+                        _poke(handed)
                     us_after = _script_projection(script)
+                    setup_key[obj] = skey
                     own[obj] = (cid, h["kinds"][obj])
                     glob = own[obj]
                     rf = refs[own[obj]]
@@ -485,6 +510,11 @@ class Runner:
                     cid_own = own.get(obj, (None,))[0]
                     want_units = dict({"space": "µm", "time": "s", "quantity": "molecule"}, **(h["cfgs"].get(cid_own, {}).get("units") or {})) if cid_own else None
                     result = self._output(eng, lib, cur_ref(obj), d, want_units if view == "own" else None)
+                    if view == "own" and obj in setup_key and result is not None and getattr(result, "script", None) is not None:
+                        # the trajectory carries the script that was set up - not what the caller made of its object since
+                        if _script_projection(result.script) != self.script_proj[setup_key[obj]]:
+                            d["dataok"] = False
+                            d["why"] = (d.get("why") or []) + ["the script stored in the trajectory is not the script that was set up"]
                     seen(obj, d)
                 elif call == "finalize":
                     eng.finalize()
@@ -576,7 +606,7 @@ class Runner:
 
     def _output(self, eng, lib, rf, d, want_units=None):
         out = eng.get_output()
-        size = eng._script.system.state_size()
+        size = rf.size if rf is not None else eng._script.system.state_size()
         ts = raw_tsample(lib)
         traj = raw_traj(lib, size)
         ns = len(ts)
